@@ -24,6 +24,7 @@ class C07(Check):
     pid = "C07"
     title = "Generated Python/TypeScript/Rust/Julia right-hand sides equal the model"
     rules = {
+        "G10": "(shared with C06) semantics of the function translator every back end prints from: statement / substitution / operator rules S2, S6, S9, S10, S11 of C06",
         "G1": "definitions before uses: assignments for derived quantities and reactions are emitted while iterating the cached "
               "dependency order (either may name the other); derivative sums come after them",
         "G2": "every referable name is defined: the emitted parameters cover plain and initial-assignment parameters (minus the free ones)",
@@ -37,7 +38,7 @@ class C07(Check):
         "G9": "the names returned are the names assigned: derivative sums are assigned to d<variable>dt and the return lists d<variable>dt",
         "G7": "the four back ends agree on free-parameter handling (removed from the assignments, appended to the signature)",
     }
-    floors = {"G1": 2, "G2": 1, "G3": 2, "G4": 12, "G5": 2, "G6": 3, "G7": 4, "G8": 2, "G9": 1}
+    floors = {"G10": 10, "G1": 2, "G2": 1, "G3": 2, "G4": 12, "G5": 2, "G6": 3, "G7": 4, "G8": 2, "G9": 1}
     decided = [
         "generated functions never read a derived quantity / reaction / parameter before it is assigned",
         "template well-formedness at the level of format fields; Python unpacking shape",
@@ -52,6 +53,7 @@ class C07(Check):
         gen = mod.func(GEN)
         body = strip_docstring(gen.body)
         sc = Scope(gen)
+        self.borrow("C06", ("S2", "S6", "S9", "S10", "S11"), "G10")
         # ---- G1
         emit_loops = []
         for lp in [s for s in body if isinstance(s, ast.For)]:
